@@ -17,6 +17,20 @@ CHECKS = {
          "reset reachable at every point of every update history in the model; recorded reset runs (multiple resets, reset before first update) compared with the model and with a brand-new object", "4 C10"),
  "C13": ("TLC model checking of the counter machine over gap-class sequences + trace validation online and offline",
          "counter = number of out-of-tolerance gaps model-checked over all gap-class sequences/tolerances with Reset; recorded counters for 9 unit configurations validated after every call", "4 C13"),
+ "C06": ("TLC model checking of the online machine under the 5 interface-aware modes against Sem!Sig (RhoIA) + trace validation of discrete-time monitors of all semantics",
+         "interface-aware predicate clause modelled once (Sem!PredIA) and used by both the declarative semantics and the operational online model; model-checked for 5 semantics x all IO assignments; recorded offline/online runs validated, STANDARD compared under opposite declarations", "4 C06"),
+ "C07": ("TLC model checking of theorems SignSound/BallSound over Sem!Sig and Sem!Sat + trace validation of the sign of recorded values against Sem!Sat and of Sat-invariance on perturbed traces",
+         "sign and magnitude soundness are theorems of the specification checked on all short traces; the implementation's reported numbers are bound directly to the Boolean semantics (not through Sig)", "4 C07"),
+ "C09": ("trace validation of modular vs inlined real objects (offline, online, pastified) against the model and each other; TLC model checking of shared operator memories",
+         "random decompositions into sub-specifications/constants via both API forms; read-back AST must equal the inlined formula; both objects validated against the machine and compared", "4 C09"),
+ "C11": ("TLC model checking of K=2 interleavings (isolation action property) + trace validation of interleaved executions on shared caller data under several PYTHONHASHSEED values",
+         "isolation is an action property of the machine; recorded interleaved runs with shared caller-owned data, repeated evaluate(), and 4-16 hash seeds are validated by one deterministic specification and compared across seeds", "4 C11"),
+ "C12": ("trace validation of get_value() observations against Sem!Sig of the named formula and against a real stand-alone object per name",
+         "get_value of every name and variable after every call; oracle 1 = a real stand-alone specification object, oracle 2 = the model (delayed by the name's own horizon after pastify)", "4 C12"),
+ "C16": ("TLC model checking of the action property on Extend (every trace/extension pair) + trace validation of evaluate(w1)/evaluate(w2) pairs",
+         "stability of settled values is an action property of the offline machine checked on all short traces; recorded pairs compared with each other on the settled region and with the model", "4 C16"),
+ "C18": ("TLC model checking of each law as an invariant Sig(lhs)=Sig(rhs) on all short traces + trace validation of both sides on the same real monitor",
+         "laws are theorems of the specification's semantics; both sides run on the same real monitor (offline, online, pastified) and are compared pointwise, independent of Sig", "4 C18"),
 }
 checks = []
 for pid, (tech, text, ref) in sorted(CHECKS.items()):
